@@ -432,6 +432,8 @@ class Inliner:
         pre = []
         if not isinstance(s2, ast.While) and not _hoisting.get("off"):
             for fld, v in list(ast.iter_fields(s2)):
+                if isinstance(v, ast.Call) and isinstance(s2, (ast.Expr, ast.Assign, ast.Return, ast.AnnAssign, ast.AugAssign)) and fld == "value" and self.resolve(v, owner):
+                    continue          # the call is the whole value: the statement form was already tried (and declined) above
                 if isinstance(v, ast.expr) and not (isinstance(s2, (ast.For, ast.AsyncFor)) and fld == "target"):
                     pre_v, v2 = self._hoist(v, owner, depth, stack)
                     pre += pre_v
